@@ -8,6 +8,7 @@ import (
 	"os"
 	"os/exec"
 	"reflect"
+	"regexp"
 	"runtime/debug"
 
 	"github.com/maruel/panicparse/v2/stack"
@@ -386,7 +387,7 @@ func joinPieces(p [][]byte) []byte { return bytes.Join(p, nil) }
 // format (0 full, 1 relative, 2 base name), buckets selects the aggregated or
 // the per-goroutine form. Bound by the clisim driver to the unexported
 // writeBucketsToConsole / writeGoroutinesToConsole of package internal.
-type ConsoleFunc func(s *stack.Snapshot, a *stack.Aggregated, pf int) string
+type ConsoleFunc func(s *stack.Snapshot, a *stack.Aggregated, pf int, filter, match string) string
 
 // CheckConsole: parse, aggregate, render to the console in every path format,
 // compare the snapshot with a freshly parsed twin after every rendering, and
@@ -403,30 +404,43 @@ func CheckConsole(c *Case, cf ConsoleFunc, cov *Cov) []*Violation {
 		return nil
 	}
 	var vs []*Violation
+	// -f / -m patterns taken from the dump itself: the state of its first
+	// goroutine as a filter (drops entries that are not the last ones), the
+	// state of its last goroutine as the only one to show
+	type fm struct{ filter, match string }
+	fms := []fm{{}}
+	if n := len(subject.Goroutines); n > 1 {
+		fms = append(fms, fm{filter: regexp.QuoteMeta(subject.Goroutines[0].State)}, fm{match: regexp.QuoteMeta(subject.Goroutines[n-1].State)})
+	}
 	for _, lvl := range []stack.Similarity{stack.AnyPointer, stack.ExactLines, stack.AnyValue} {
 		for pf := 0; pf < 3; pf++ {
 			for _, buckets := range []bool{true, false} {
-				var a *stack.Aggregated
-				if buckets {
-					a = subject.Aggregate(lvl)
-				}
-				got := cf(subject, a, pf)
-				twin := parse()
-				var ta *stack.Aggregated
-				if buckets {
-					ta = twin.Aggregate(lvl)
-				}
-				want := cf(twin, ta, pf)
-				if cov != nil {
-					cov.Evaluations++
-				}
-				pristine := parse()
-				if !reflect.DeepEqual(pristine, subject) {
-					d := DiffSnap(pristine, subject)
-					return append(vs, &Violation{Prop: "C14", Clause: "C14.snapshot-mutated", Case: c, Msg: fmt.Sprintf("[console rendering] after rendering (path format %d, buckets=%v, level %d) the snapshot differs from a freshly parsed twin: %s", pf, buckets, lvl, d)})
-				}
-				if got != want {
-					return append(vs, &Violation{Prop: "C14", Clause: "C14.result-changed", Case: c, Msg: fmt.Sprintf("[console rendering] rendering (path format %d, buckets=%v, level %d) after earlier renderings differs from the rendering of a freshly parsed snapshot", pf, buckets, lvl)})
+				for _, f := range fms {
+					var a *stack.Aggregated
+					if buckets {
+						a = subject.Aggregate(lvl)
+					}
+					got := cf(subject, a, pf, f.filter, f.match)
+					twin := parse()
+					var ta *stack.Aggregated
+					if buckets {
+						ta = twin.Aggregate(lvl)
+					}
+					want := cf(twin, ta, pf, f.filter, f.match)
+					if cov != nil {
+						cov.Evaluations++
+						if f.filter != "" || f.match != "" {
+							cov.Probe("console-filtered")
+						}
+					}
+					pristine := parse()
+					if !reflect.DeepEqual(pristine, subject) {
+						d := DiffSnap(pristine, subject)
+						return append(vs, &Violation{Prop: "C14", Clause: "C14.snapshot-mutated", Case: c, Msg: fmt.Sprintf("[console rendering] after rendering (path format %d, buckets=%v, level %d, -f %q -m %q) the snapshot differs from a freshly parsed twin: %s", pf, buckets, lvl, f.filter, f.match, d)})
+					}
+					if got != want {
+						return append(vs, &Violation{Prop: "C14", Clause: "C14.result-changed", Case: c, Msg: fmt.Sprintf("[console rendering] rendering (path format %d, buckets=%v, level %d, -f %q -m %q) after earlier renderings differs from the rendering of a freshly parsed snapshot", pf, buckets, lvl, f.filter, f.match)})
+					}
 				}
 			}
 		}
